@@ -31,6 +31,26 @@ type withUnknown struct {
 	_unknownFields []byte
 }
 
+// the shapes in which a Go value can carry `_unknownFields` (reflect's FieldByName finds promoted fields too): a
+// generated struct embedded by value / by pointer / two levels deep in a wrapper, handed over by pointer or by value
+type wrapEmbedVal struct {
+	B string
+	withUnknown
+}
+type wrapEmbedPtr struct {
+	*withUnknown
+	C int
+}
+type wrapEmbedDeep struct {
+	D int
+	wrapEmbedVal
+}
+
+func ufHolders(b []byte) []interface{} {
+	g := withUnknown{A: 1, _unknownFields: b}
+	return []interface{}{&g, g, &wrapEmbedVal{"x", g}, wrapEmbedVal{"x", g}, &wrapEmbedPtr{&g, 2}, wrapEmbedPtr{&g, 2}, &wrapEmbedDeep{3, wrapEmbedVal{"y", g}}}
+}
+
 func ufTreeJSON(fs []uf.UnknownField, seeds []int) string {
 	var sb strings.Builder
 	sb.WriteByte('[')
@@ -311,7 +331,8 @@ func runUFCase(raw json.RawMessage, w *TraceWriter) {
 				}
 			}()
 			if api == "get" {
-				fs, err = uf.GetUnknownFields(&withUnknown{A: 1, _unknownFields: gin})
+				hs := ufHolders(gin)
+				fs, err = uf.GetUnknownFields(hs[len(in)%len(hs)])
 			} else {
 				fs, err = uf.ConvertUnknownFields(gin)
 			}
@@ -564,7 +585,7 @@ func ufCases(c *Ctx, n int, hostile bool) []json.RawMessage {
 }
 
 func checkC13(c *Ctx) {
-	c.rule = "MC: over all well-typed trees within bounds (every type at the top level and as element/key/value type of the first container level, reduced alphabet below, 0..2 elements, two fields after one another inside a struct) ToTree(ToBytes(t)) = t, ToBytes(ToTree(b)) = b, TreeLen = length, tags only where meaningful. TRACE: random field sequences from the typed value generator -> ConvertUnknownFields / GetUnknownFields -> WriteUnknownFields / UnknownFieldsLength, random Go trees -> write -> convert, and trees nested 1..78 levels deep in pure and mixed chains, wide structs (0..257 fields in flight around every power of two, a nested struct of 50..150 fields behind them, converted twice in a row); TLC compares every tree field by field (ID, Type, KeyType, ValType, Value) with ToTree and every output with ToBytes; truncated and perturbed inputs are accepted exactly when the reference accepts them; trees with one node of a non-Thrift type at any position are refused by the length function and the writer, values without unknown fields by GetUnknownFields (an error, never a panic). BIG COLLECTIONS (Go monitor; the expectation is computed in Go from the data that was encoded, because TLC's map comparison is quadratic): unknown-field maps / lists / sets of 255..131073 entries, structs and field sequences to 32767 fields: every node, length and write-back."
+	c.rule = "MC: over all well-typed trees within bounds (every type at the top level and as element/key/value type of the first container level, reduced alphabet below, 0..2 elements, two fields after one another inside a struct) ToTree(ToBytes(t)) = t, ToBytes(ToTree(b)) = b, TreeLen = length, tags only where meaningful. TRACE: random field sequences from the typed value generator -> ConvertUnknownFields / GetUnknownFields -> WriteUnknownFields / UnknownFieldsLength, random Go trees -> write -> convert, and trees nested 1..78 levels deep in pure and mixed chains, wide structs (0..257 fields in flight around every power of two, a nested struct of 50..150 fields behind them, converted twice in a row); TLC compares every tree field by field (ID, Type, KeyType, ValType, Value) with ToTree and every output with ToBytes; truncated and perturbed inputs are accepted exactly when the reference accepts them; trees with one node of a non-Thrift type at any position are refused by the length function and the writer, values without unknown fields by GetUnknownFields (an error, never a panic). BIG COLLECTIONS (Go monitor; the expectation is computed in Go from the data that was encoded, because TLC's map comparison is quadratic): unknown-field maps / lists / sets of 255..131073 entries, structs and field sequences to 32767 fields: every node, length and write-back. GetUnknownFields is called on every holder shape in turn: a struct declaring the field, by pointer and by value, embedded by value / by pointer / two levels deep in a wrapper."
 	c.MC("MC_UnknownFields.tla", "MC_UnknownFields.cfg", 4)
 	cases := ufCases(c, c.Pick(1500, 30000), false)
 	// truncated / perturbed inputs: accepted exactly when the reference accepts them (a converter that swallows a
